@@ -75,6 +75,8 @@ type World struct {
 	FieldOrder uint64
 	// NewSplit, when set, gives every new connection its Splitter ("ctl" / "xfer").
 	NewSplit func(kind string) Splitter
+	// XferSegGap, when set, is the (fake) time a transfer connection's writer lets pass between two segments.
+	XferSegGap time.Duration
 
 	mu      sync.Mutex
 	conns   []*Conn
@@ -403,6 +405,7 @@ func (w *World) Connect(remote string, opts ...func(*Conn)) *Conn {
 // OpenTransfer opens a transfer-port connection.
 func (w *World) OpenTransfer(remote string) *Conn {
 	c := newConn(w, remote)
+	c.SegGap = w.XferSegGap
 	if w.NewSplit != nil {
 		c.Split = w.NewSplit("xfer")
 	}
